@@ -510,6 +510,9 @@ func writeEvidence(id, tier string, seed int64, cfg propCfg, m *stats, distinct,
 	}
 	b, _ := json.MarshalIndent(ev, "", " ")
 	dir := filepath.Join(verifDir, "evidence")
+	if v := os.Getenv("VERIF_EVIDENCE_DIR"); v != "" {
+		dir = v // sensitivity runs against scratch trees must not overwrite real evidence
+	}
 	_ = os.MkdirAll(dir, 0o755)
 	_ = os.WriteFile(filepath.Join(dir, id+".json"), append(b, '\n'), 0o644)
 }
